@@ -37,19 +37,6 @@ mod verif_kani_deps {
         assert!(TimeDelta::try_weeks(s).is_some() == (s >= -(max / 604800) && s <= max / 604800));
     }
 
-    /// chrono: num_* accessors are total and consistent with the constructor
-    #[kani::proof]
-    fn dep_timedelta_accessors() {
-        let s: i64 = kani::any();
-        if let Some(d) = TimeDelta::try_seconds(s) {
-            assert!(d.num_seconds() == s);
-            assert!(d.num_minutes() == s / 60);
-            assert!(d.num_hours() == s / 3600);
-            assert!(d.num_days() == s / 86400);
-            assert!(d.num_weeks() == s / 604800);
-        }
-    }
-
     /// chrono: checked_sub / checked_add on TimeDelta never panic (the panicking operators are `expect` on these)
     #[kani::proof]
     fn dep_timedelta_checked_ops() {
